@@ -82,6 +82,9 @@ package dnsforward
 //@   modifies nothing
 //@   ensures ok == hostBlocked(a, host, qt)
 
+// (C16: the request id -> ClientID cache is written for every request that is let through - with its ClientID, or cleared
+// for a request without one: request ids start again from 1 whenever the proxy is rebuilt, and an entry left over from an
+// earlier request with the same id would attach somebody's ClientID to a plain request.)
 //@ func (s *Server) HandleBefore(_p0 *proxy.Proxy, pctx *proxy.DNSContext) (err error)
 //@   property C03, C16
 //@   requires pctx.Addr.Addr() != netip.Addr{}
@@ -90,6 +93,7 @@ package dnsforward
 //@   ensures clientid-error-servfail: lastCIDErr ==> typeIs(err, *proxy.BeforeRequestError) && synthReply(unbox(err, *proxy.BeforeRequestError).Response, old(pctx.Req), 2)
 //@   ensures excluded-client: !lastCIDErr && !old(admitted(s.access, pctx.Addr.Addr(), cur(lastCID))) ==> blockedShape(err, old(pctx.Proto), old(pctx.Req))
 //@   ensures blocked-host: !lastCIDErr && old(admitted(s.access, pctx.Addr.Addr(), cur(lastCID))) && old(len(pctx.Req.Question) == 1 && hostBlocked(s.access, aghnet.NormalizeDomain(pctx.Req.Question[0].Name), pctx.Req.Question[0].Qtype)) ==> blockedShape(err, old(pctx.Proto), old(pctx.Req))
+//@   ensures passing-request-records-its-id: err == nil ==> cacheWrites == old(cacheWrites) + 1
 //@   ensures served: !lastCIDErr && old(admitted(s.access, pctx.Addr.Addr(), cur(lastCID))) && !old(len(pctx.Req.Question) == 1 && hostBlocked(s.access, aghnet.NormalizeDomain(pctx.Req.Question[0].Name), pctx.Req.Question[0].Qtype)) ==> err == nil
 
 //@ func (s *Server) clientIDFromDNSContext(pctx *proxy.DNSContext) (clientID string, err error)
